@@ -42,7 +42,7 @@ theorem C18_no_progress_after_failure (E : Env) (s : GS) (c a : Nat) (hf : s.fre
   obtain ⟨x, hx, hk⟩ := hz
   cases hc with
   | noop _ _ => simp [newActs] at hx
-  | rejected p _ _ => simp [newActs] at hx
+  | rejected p _ _ _ => simp [newActs] at hx
   | allocFailed req L hL hreq hk' => exact ⟨rfl, GS.refused_sameHdr s req⟩
   | grown req L hL hlen hreq hg hr =>
     exfalso
